@@ -4,7 +4,7 @@
 //!  * src/codegen/testing.rs: `TestCase::run` (whole function), `get_tests`
 //!    (filter predicate, key pipeline, sort, display name / look-up key),
 //!    `run_tests` (counter state, loop source, loop body, final decision);
-//!  * src/pipeline.rs: `Package<NoCtx>::run_tests`;
+//!  * src/pipeline.rs: `Package<NoCtx>::run_tests`, `Package<Ctx<C>>::run_tests`, `Package::get_tests`;
 //!  * src/cli.rs: `enum Command`, every arm of `cli_inner`, `cli`;
 //!  * src/typechecker/function.rs `test` and src/mir/lower.rs `test`: the
 //!    `format!("test#…")` name and the signature a test gets.
@@ -13,6 +13,8 @@
 //!  * `print!/println!/eprintln!` only write to the terminal: removed; a `let`
 //!    whose variable is afterwards unused and whose initialiser only calls
 //!    `len/to_string/name` is display-only and removed with them;
+//!  * (type ascriptions on other `let`s are dropped; an integer-literal `let` WITH a type is
+//!    refused: its width decides when a count wraps)
 //!  * an un-annotated `let mut c = <int>` that is only `+=`-ed, compared and
 //!    printed is an `i32` (Rust's integer fallback); the counters become the
 //!    fields of a state record threaded through the loop;
@@ -64,8 +66,16 @@ impl VisitMut for Clean {
         b.stmts.retain(|s| !is_print_stmt(s));
         for s in b.stmts.iter_mut() {
             if let Stmt::Local(l) = s {
+                // a type ascription on an integer-literal `let` (a counter) decides its width
+                // and overflow behaviour: it is kept, and `run_tests` refuses it below
+                let int_init = matches!(
+                    l.init.as_ref().map(|i| &*i.expr),
+                    Some(Expr::Lit(syn::ExprLit { lit: syn::Lit::Int(_), .. }))
+                );
                 if let Pat::Type(pt) = &l.pat {
-                    l.pat = (*pt.pat).clone();
+                    if !int_init {
+                        l.pat = (*pt.pat).clone();
+                    }
                 }
             }
         }
@@ -292,6 +302,7 @@ fn base_cx() -> Cx {
         ("Result::Err", "RResult.Err"),
         ("Clone::clone", "id"),
         ("NoCtx", "()"),
+        ("ExitCode::from", "ExitCode.ofStatus"),
         ("empty_str", "([] : Name)"),
     ] {
         cx.paths.insert(r.into(), l.into());
@@ -471,13 +482,24 @@ fn get_tests(testing: &syn::File) -> R {
 /// counters ↦ fields of `st__`; integer literals next to them ↦ `i32lit(k)`
 struct Counters<'a>(&'a [String]);
 impl Counters<'_> {
+    /// an expression of the counters' type: a counter, or arithmetic over counters and
+    /// (already converted) literals — `failures % 256`, `(successes + failures)`, …
     fn is_counter_field(&self, e: &Expr) -> Option<String> {
-        if let Expr::Field(f) = e {
-            if f.base.to_token_stream().to_string() == "st__" {
-                return Some(f.member.to_token_stream().to_string());
+        match e {
+            Expr::Field(f) if f.base.to_token_stream().to_string() == "st__" => {
+                Some(f.member.to_token_stream().to_string())
             }
+            Expr::Paren(p) => self.is_counter_field(&p.expr),
+            Expr::Binary(b)
+                if matches!(
+                    b.op,
+                    syn::BinOp::Add(_) | syn::BinOp::Sub(_) | syn::BinOp::Mul(_) | syn::BinOp::Div(_) | syn::BinOp::Rem(_)
+                ) =>
+            {
+                self.is_counter_field(&b.left).or_else(|| self.is_counter_field(&b.right))
+            }
+            _ => None,
         }
-        None
     }
 }
 impl VisitMut for Counters<'_> {
@@ -578,6 +600,13 @@ fn run_tests(testing: &syn::File) -> R {
     for (i, s) in f.block.stmts.iter().enumerate() {
         match s {
             Stmt::Local(l) => {
+                if let Pat::Type(pt) = &l.pat {
+                    return Err(format!(
+                        "run_tests: counter `{}` has the explicit type `{}`: the model's counters are i32 (integer fallback); another width changes when the count wraps",
+                        pt.pat.to_token_stream(),
+                        pt.ty.to_token_stream()
+                    ));
+                }
                 let Pat::Ident(pi) = &l.pat else {
                     return Err("run_tests: unsupported let pattern".into());
                 };
@@ -781,9 +810,26 @@ fn package_run_tests(pipeline: &syn::File) -> R {
     rewrite(&mut f.block)?;
     let cx = base_cx();
     let body = cx.block(&f.block.stmts)?;
-    Ok(format!(
+    let mut out = format!(
         "/-- `Package<NoCtx>::run_tests` (src/pipeline.rs) -/\ndef Package_run_tests {{ε : Type}} (dbg : Bool) (self : Package) : Run ε (RResult Unit Unit) :=\n {body}\n\n"
-    ))
+    );
+    // the sibling entry points: `Package<Ctx<C>>::run_tests(ctx)` and `Package::get_tests`
+    let mut f = find::func(pipeline, "run_tests", Some("Package<Ctx<C>>"))?;
+    rewrite(&mut f.block)?;
+    let mut cx = base_cx();
+    // `Ctx(ctx)` wraps the host's context value; the model's context is `Unit`
+    cx.paths.insert("Ctx".into(), "id".into());
+    let body = cx.block(&f.block.stmts)?;
+    out.push_str(&format!(
+        "/-- `Package<Ctx<C>>::run_tests` (src/pipeline.rs) -/\ndef Package_run_tests_ctx {{ε : Type}} (dbg : Bool) (self : Package) (ctx : Unit) : Run ε (RResult Unit Unit) :=\n {body}\n\n"
+    ));
+    let mut f = find::func(pipeline, "get_tests", Some("Package<Ctx>"))?;
+    rewrite(&mut f.block)?;
+    let body = base_cx().block(&f.block.stmts)?;
+    out.push_str(&format!(
+        "/-- `Package::get_tests` (src/pipeline.rs) -/\ndef Package_get_tests (dbg : Bool) (self : Package) : Res (List TestCase) :=\n {body}\n\n"
+    ));
+    Ok(out)
 }
 
 // ------------------------------------------------- how a test becomes a function
